@@ -31,7 +31,7 @@ def confirm(seeddir, wt):
         return res
     rc, out = sh("go build ./...", cwd=wt)
     res["builds"] = rc == 0
-    rc, out = sh("go test -vet=off -count=1 ./... 2>&1 | tail -12", cwd=wt, timeout=2400)
+    rc, out = sh("unshare -rn sh -c 'ip link set lo up; go test -vet=off -count=1 ./... 2>&1 | tail -12'", cwd=wt, timeout=2400)
     res["suite_passes"] = ("FAIL" not in out) and ("ok" in out)
     res["suite_tail"] = out[-600:]
     demo = meta.get("demo_cmd", "")
